@@ -370,7 +370,7 @@ CORPUS = [
     # nearly axisymmetric axis (constant-data shortcuts must not fire)
     dict(rc=[1.0, 4.0e-6], zs=[0.0, 4.0e-6], nfp=3, etabar=1.1, order='r1', nphi=31),
     # weakly shaped axis at second order: B20 is nearly uniform (one-pass variance formulas cancel catastrophically)
-    dict(rc=[1.0, 2.0e-4], zs=[0.0, 2.0e-4], nfp=2, etabar=0.9, order='r2', B2c=0.3, p2=-1.0e5, I2=0.7, nphi=21),
+    dict(rc=[1.0, 2.0e-5], zs=[0.0, 2.0e-5], nfp=2, etabar=0.9, order='r2', B2c=0.3, p2=-1.0e5, I2=0.7, nphi=21),
 ]
 
 
